@@ -1,9 +1,9 @@
 SPECIFICATION Spec
 CONSTANTS WB = 2
           MaxDraw = 6
-          MaxBits = 7
-          MaxBound = 17
-          MaxEnd = 6
+          MaxBits = 6
+          MaxBound = 13
+          MaxEnd = 5
           Mut = "none"
 INVARIANTS InBounds AsSpecified BufferInv
 CHECK_DEADLOCK FALSE
